@@ -28,5 +28,11 @@ for d in sorted(glob.glob(f'{root}/C*')):
         "checks_that_report_a_violation": {c: row[c].get('obligations', []) for c in caught},
         "checks_run_that_stay_quiet": quiet,
     }
+    if a.get('round') == 2:
+        m['round'] = 2
+        if sid != 'C15b':  # round 2: only C15b was also run with the patch applied to /repo itself
+            m['what_i_ran'] = [w for w in m['what_i_ran'] if not w.startswith('tools/with_patch.sh')]
+        else:
+            m['what_i_ran'].append("first matrix run: C15 stayed quiet; after the completeness probe was added to the Decode contract the check reports the seed (docs/seed_notes.md)")
     json.dump(m, open(f'{d}/meta.json', 'w'), indent=1)
     print(sid, 'caught by', caught or 'NONE')
